@@ -51,9 +51,13 @@ def run(R):
                 for h in tr.handlers:
                     t = q.src(h.type) if h.type is not None else ""
                     rets = [x for x in ast.walk(h) if isinstance(x, ast.Return) and x.value is not None]
-                    if t.endswith("StopIteration") and any(q.src(r.value) == "%s.value" % h.name for r in rets):
+                    # single-exit form: the handler stores the outcome in a local that the function returns
+                    returned = set(x.value.id for x in q.scope_nodes(w.node) if isinstance(x, ast.Return) and isinstance(x.value, ast.Name))
+                    stored = [x.value for x in ast.walk(h) if isinstance(x, ast.Assign) and any(isinstance(t_, ast.Name) and t_.id in returned for t_ in x.targets)]
+                    vals = [q.src(r.value) for r in rets] + [q.src(v) for v in stored]
+                    if t.endswith("StopIteration") and "%s.value" % h.name in vals:
                         out.add("StopIteration.value")
-                    if t.endswith("AsyncTaskResult") and any(q.src(r.value) == "%s.result" % h.name for r in rets):
+                    if t.endswith("AsyncTaskResult") and "%s.result" % h.name in vals:
                         out.add("AsyncTaskResult.result")
         return out
     gs = signals_of(gw, lambda c: q.attr_call(c)[1] in ("send", "throw"))
@@ -404,6 +408,23 @@ def run(R):
                 "__get__ hands the copy %s: the binder's .asyncio() already passes the instance as first argument, so a user-supplied asyncio_fn of a "
                 "method is called with the instance twice (obj.m.asyncio(x) raises TypeError while obj.m(x) works)"
                 % ("a bound asyncio_fn (`%s`)" % q.src(bound[0])[:50] if bound else "no asyncio_fn at all: a user-supplied twin is dropped for bound access"))
+    # the refusal of synchronous calls in asyncio mode is the default: every `allow_sync_call` parameter of the decorators and of their
+    # factories defaults to False (with True the call only logs a warning and then blocks the event loop)
+    dm_ = repo.modules["decorators"]
+    n_allow = 0
+    for fdef in [x for x in ast.walk(dm_.tree) if isinstance(x, (ast.FunctionDef, ast.AsyncFunctionDef))]:
+        args_ = fdef.args.args
+        defaults_ = [None] * (len(args_) - len(fdef.args.defaults)) + list(fdef.args.defaults)
+        pairs_ = list(zip(args_, defaults_)) + list(zip(fdef.args.kwonlyargs, fdef.args.kw_defaults))
+        for a_, d_ in pairs_:
+            if a_.arg != "allow_sync_call" or d_ is None:
+                continue
+            n_allow += 1
+            R.check(isinstance(d_, ast.Constant) and d_.value is False, "C15.MODE", "decorators.%s:allow_sync_call" % fdef.name, R.site(dm_, fdef),
+                    "%s(allow_sync_call=False) by default" % fdef.name,
+                    "%s() defaults allow_sync_call to %s: a plain synchronous call of an async function inside asyncio mode is then only logged, and blocks the event loop, "
+                    "instead of raising RuntimeError" % (fdef.name, q.src(d_)))
+    R.need(n_allow >= 4, "fewer allow_sync_call parameters than confirmed by hand (%d < 4)" % n_allow)
     R.require_min("C15.ENGINES", 7)
     R.require_min("C15.MODE", 5)
 
